@@ -45,6 +45,8 @@ fn available(confirmed: &[u64], n_extra: u64) -> Vec<u64> {
     push(UC, has(F) && !has(M) && !has(U) && !has(UN) && !has(UR) && !has(UP));
     push(UN, has(F) && !has(M) && !has(U) && !has(UC) && !has(UR) && !has(UP));
     push(SC, has(UC));
+    push(TC, has(UC));
+    push(VC, has(TC));
     // the counterparty's previous, not yet revoked commitment with an HTLC we offered (its point must be available)
     push(UP, has(F) && !has(M) && !has(U) && !has(UC) && !has(UN) && !has(UR));
     push(SP, has(UP));
@@ -454,7 +456,8 @@ impl Group for C14 {
                                 // the decoder is an input of the model; check it against what the harness built: the output
                                 // the closing transaction pays to us and its HTLC outputs must be the ones the monitor tracks
                                 for cid in [U, UC, UR, UN, UP] {
-                                    if ids.contains(&cid) {
+                                    // (only meaningful if the funding transaction is on the chain: otherwise the block is not a close)
+                                    if ids.contains(&cid) && (ids.contains(&F) || chain.iter().any(|b| b.contains(&F))) {
                                         let st = wd.state_json();
                                         let co_ = &st["closing_outpoints"];
                                         let (bo, bh) = wd.built[&cid].clone();
@@ -482,13 +485,13 @@ impl Group for C14 {
                                     relevant_reorg = true;
                                     co.tags.insert("remove:relevant".into());
                                 }
-                                for (id, tag) in [(F, "funding"), (D, "doublespend"), (D2, "doublespend"), (M, "mutual"), (U, "unilateral"), (UC, "unilateral-cp"), (UN, "unilateral-cp"), (UP, "unilateral-cp"), (SP, "sweep"), (TP, "htlc"), (VP, "second-level"), (S, "sweep"), (SC, "sweep"),
+                                for (id, tag) in [(F, "funding"), (D, "doublespend"), (D2, "doublespend"), (M, "mutual"), (U, "unilateral"), (UC, "unilateral-cp"), (UN, "unilateral-cp"), (UP, "unilateral-cp"), (SP, "sweep"), (TP, "htlc"), (VP, "second-level"), (TC, "htlc"), (VC, "second-level"), (S, "sweep"), (SC, "sweep"),
                                                   (T1, "htlc"), (T2, "htlc"), (T12, "htlc"), (V1, "second-level"), (V2, "second-level"),
                                                   (V12A, "second-level"), (V12B, "second-level")] {
                                     if ids.contains(&id) { co.tags.insert(format!("reorg-of:{}", tag)); }
                                 }
                             }
-                            if *dir == "remove" && ids.iter().any(|x| [T1, T2, T12, V1, V2, V12A, V12B, TP, VP].contains(x)) {
+                            if *dir == "remove" && ids.iter().any(|x| [T1, T2, T12, V1, V2, V12A, V12B, TP, VP, TC, VC].contains(x)) {
                                 htlc_reorg_seen = true;
                             }
                             // property monitor: view == fresh replay of the surviving chain
